@@ -2,7 +2,7 @@
 from common import *  # noqa
 import dbtie
 
-PROFILE = {'scenario_pref': ['or_not', 'or_not', 'one_us_late', 'noop_compose', 'epoch', 'sparse_write', 'nan_fields', 'nested_not', 'fold_twins', 'big_ties', 'same_count', 'hash_twins', 'ooo_batch', 'nested_not', 'odd_strings'], 'p_write': 0.3}
+PROFILE = {'scenario_also': ['ne_writes'], 'scenario_pref': ['or_not', 'or_not', 'one_us_late', 'noop_compose', 'epoch', 'sparse_write', 'nan_fields', 'nested_not', 'fold_twins', 'big_ties', 'same_count', 'hash_twins', 'ooo_batch', 'nested_not', 'odd_strings'], 'p_write': 0.3}
 
 
 def main(tier, seed):
